@@ -4,7 +4,7 @@ Copies a seed agent's deliverable (/tmp/seed_<Cxx>_out: patch.diff, meta.json, d
 /verif/seeded/<Cxx>-<slug>/ and records which checks caught it."""
 import sys, os, json, shutil, datetime
 cid, slug, caught = sys.argv[1], sys.argv[2], sys.argv[3]
-src = f'/tmp/seed_{cid}_out'; dst = f'/verif/seeded/{cid}-{slug}'
+src = os.environ.get('SEED_SRC', f'/tmp/seed_{cid}_out'); dst = f'/verif/seeded/{cid}-{slug}'
 os.makedirs(dst, exist_ok=True)
 shutil.copy2(f'{src}/patch.diff', f'{dst}/patch.diff')
 if os.path.isdir(f'{src}/demo'):
